@@ -21,9 +21,10 @@ META = dict(
          "parents, failing scripts, ill-formed packages, against every reachable pool) is replayed on a real node through ProcessNewPackage; "
          "package verdict, per-transaction result kinds and reasons, replaced set and resulting pool are compared.",
     note="SAFE mode: a package predicate or gate that is stricter than stated is tolerated (counted as diverged_conservative); where the node "
-         "deviates from the prediction TLC evaluates the three post-conditions on the observed call. Bounded: 17-transaction universe, <= 2 "
+         "deviates from the prediction TLC evaluates the three post-conditions on the observed call. Bounded: 21-transaction universe, <= 2 "
          "packages per history (quick: 1), packages of <= 4 transactions on the node; eviction right after acceptance is exercised by an expired "
-         "ancestor and by a 16-transaction universe under -maxmempool=1.",
+         "ancestor, by a 16-transaction universe under -maxmempool=1, and by a later package transaction that replaces a pool ancestor of an "
+         "earlier one (package [P1, P2, C] with P1 submitted in the package or already in the pool).",
     technique="TLA+ operators tabulated by TLC and replayed on policy/packages.cpp; TLA+ spec Mempool + TLC exhaustive, path cover replayed on a real node",
 )
 
@@ -88,6 +89,19 @@ def run(ctx):
                                ("invalid", "script-failed"), ("none", "none")) if not st["txr"].get(k)]
         if missing:
             raise vflib.InfraError("vacuity: per-transaction results never predicted: %s" % missing)
+        # a package transaction with a recorded success (VALID on its own / MEMPOOL_ENTRY) is evicted by a later package transaction's replacement
+        kicked = dict(valid=0, entry=0)
+        for p in st["paths"]:
+            for k, s in enumerate(p["steps"]):
+                if s["a"][0] != "pkg":
+                    continue
+                pre = (p["steps"][k - 1]["m"] if k else p["init_m"])["pool"]
+                for i, t in enumerate(s["a"][1]):
+                    if t in s["r"]["evict"] and s["r"]["txr"][i] == dict(k="invalid", why="mempool full"):
+                        kicked["entry" if t in pre else "valid"] += 1
+        if not kicked["valid"] or not kicked["entry"]:
+            raise vflib.InfraError("vacuity: no package transaction with a recorded success is evicted by a later package transaction's replacement (%s)" % kicked)
+        ctx.extra["package_txs_evicted_by_a_later_package_tx"] = kicked
         ctx.extra["per_transaction_results_predicted"] = {"%s/%s" % k: v for k, v in sorted(st["txr"].items())}
     ctx.assumptions += ["bounded scenario on a 110-block regtest base chain, -acceptnonstdtxn=1, the mempool never reaches its size limit",
                         "fees, virtual sizes and weights of the universes are measured from the real signed transactions at run time"]
